@@ -175,6 +175,9 @@ func (r *connReader) readMessage() (pmpx.Message, status.Status) {
 	return msg, status.OK
 }
 
+// maxReadChunk is the maximum number of bytes allocated ahead of the received data.
+const maxReadChunk = 1 << 20
+
 // read reads the next message bytes, the bytes are valid until the next read call.
 func (r *connReader) read() ([]byte, status.Status) {
 	head := r.head[:]
@@ -187,9 +190,24 @@ func (r *connReader) read() ([]byte, status.Status) {
 
 	// Read bytes
 	r.buf.Reset()
-	buf := r.buf.Grow(int(size))
-	if _, err := io.ReadFull(r.reader, buf); err != nil {
-		return nil, mpxError(err)
+	rem := int(size)
+	if rem <= maxReadChunk {
+		buf := r.buf.Grow(rem)
+		if _, err := io.ReadFull(r.reader, buf); err != nil {
+			return nil, mpxError(err)
+		}
+		return buf, status.OK
 	}
-	return buf, status.OK
+
+	// Read large messages in chunks, grow the buffer as the bytes arrive.
+	// The size comes from the peer and must not cause a huge allocation by itself.
+	for rem > 0 {
+		n := min(rem, maxReadChunk)
+		buf := r.buf.Grow(n)
+		if _, err := io.ReadFull(r.reader, buf); err != nil {
+			return nil, mpxError(err)
+		}
+		rem -= n
+	}
+	return r.buf.Bytes(), status.OK
 }
